@@ -199,3 +199,96 @@ Theorem C11_solver_wrap_shape : forall dims, wrap_shape dims false false = dims 
   fold_right Nat.mul 1 (wrap_shape dims true false) = fold_right Nat.mul 1 dims.
 Proof. exact solver_wrap_shape. Qed.
 Print Assumptions C11_solver_wrap_shape.
+
+(* ------------------------------------------------------------------ *)
+(* Complex data: the driver theorems at the Gaussian-rational field GF for
+   the statement-level models of CG (Hermitian positive definite systems)
+   and CGLS (complex rectangular systems) of Solvers/CG.v, CGLS.v. *)
+From PV Require Import Dict Mat GaussQc GaussField CG CGLS DriversGauss.
+
+(* the run loop of CG.v / CGLS.v (the one the C09/C10 theorems are about) is
+   the driver machine's run, for every field with conjugation *)
+Theorem C11_cg_run_is_driver_run : forall (F : FieldS) absf gtb Aop niter tol st log,
+  fst (cg_run F absf gtb Aop niter niter tol st log) = run (cg_drv F absf gtb Aop tol) niter st.
+Proof. exact cg_run_is_driver_run. Qed.
+Print Assumptions C11_cg_run_is_driver_run.
+Theorem C11_cgls_run_is_driver_run : forall (F : FieldS) absf gtb n A niter tol st log,
+  fst (cgls_run F absf gtb n A niter niter tol st log) = run (cgls_drv F absf gtb n A tol) niter st.
+Proof. exact cgls_run_is_driver_run. Qed.
+Print Assumptions C11_cgls_run_is_driver_run.
+
+Theorem C11_cgG_run_split : forall A tol j k st,
+  run (cgG A tol) (j + k) (run (cgG A tol) j st) = run (cgG A tol) (j + k) st.
+Proof. exact cgG_run_split. Qed.
+Print Assumptions C11_cgG_run_split.
+Theorem C11_cglsG_run_split : forall n A tol j k st,
+  run (cglsG n A tol) (j + k) (run (cglsG n A tol) j st) = run (cglsG n A tol) (j + k) st.
+Proof. exact cglsG_run_split. Qed.
+Print Assumptions C11_cglsG_run_split.
+
+Theorem C11_cgG_run_is_step_pow : forall A tol n st,
+  (forall i, i < n - cg_iiter GF st -> gtGd (cg_kold GF (fst (iter (cgG A tol) i (st, tt)))) (ofQc tol) = true) ->
+  run (cgG A tol) n st = fst (iter (cgG A tol) (n - cg_iiter GF st) (st, tt)).
+Proof. exact cgG_run_is_step_pow. Qed.
+Print Assumptions C11_cgG_run_is_step_pow.
+Theorem C11_cglsG_run_is_step_pow : forall m A tol n st,
+  (forall i, i < n - cl_iiter GF st -> gtGd (cl_kold GF (fst (iter (cglsG m A tol) i (st, tt)))) (ofQc tol) = true) ->
+  run (cglsG m A tol) n st = fst (iter (cglsG m A tol) (n - cl_iiter GF st) (st, tt)).
+Proof. exact cglsG_run_is_step_pow. Qed.
+Print Assumptions C11_cglsG_run_is_step_pow.
+
+Theorem C11_cgG_progs_equivalent : forall A tol N pa pb st, safe (cgG A tol) N pa st -> safe (cgG A tol) N pb st ->
+  exec (cgG A tol) (pa ++ [Run N]) st = exec (cgG A tol) (pb ++ [Run N]) st.
+Proof. exact cgG_progs_equivalent. Qed.
+Print Assumptions C11_cgG_progs_equivalent.
+Theorem C11_cglsG_progs_equivalent : forall n A tol N pa pb st,
+  safe (cglsG n A tol) N pa st -> safe (cglsG n A tol) N pb st ->
+  exec (cglsG n A tol) (pa ++ [Run N]) st = exec (cglsG n A tol) (pb ++ [Run N]) st.
+Proof. exact cglsG_progs_equivalent. Qed.
+Print Assumptions C11_cglsG_progs_equivalent.
+
+(* CG.solve / CGLS.solve as modelled in CG.v / CGLS.v = setup ; any safe
+   driving program ; run niter ; finalize *)
+Theorem C11_cgG_solve_is_setup_run_finalize : forall A n y x0 niter tol prog,
+  safe (cgG A tol) niter prog (cgG_setup A n y x0) ->
+  fst (cg_solve GF absGd gtGd (mv GF A) n y x0 niter (ofQc tol)) =
+  manual (cgG A tol) (fun a : Datatypes.unit => cgG_setup A n y x0) (cg_out GF) niter prog tt.
+Proof. exact cgG_solve_is_setup_run_finalize. Qed.
+Print Assumptions C11_cgG_solve_is_setup_run_finalize.
+Theorem C11_cglsG_solve_is_setup_run_finalize : forall n A y x0 niter damp tol prog,
+  safe (cglsG n A tol) niter prog (cglsG_setup n A y x0 damp) ->
+  fst (cgls_solve GF absGd gtGd n A y x0 niter (ofQc damp) (ofQc tol)) =
+  manual (cglsG n A tol) (fun a : Datatypes.unit => cglsG_setup n A y x0 damp) (cgls_out GF gtGd (ofQc tol)) niter prog tt.
+Proof. exact cglsG_solve_is_setup_run_finalize. Qed.
+Print Assumptions C11_cglsG_solve_is_setup_run_finalize.
+
+(* non-vacuity on a Hermitian positive definite 2x2 Gaussian-integer system
+   (split = one run, a safe mixed program, CG solves it exactly in 2 steps) *)
+Example C11_cgG_nonvacuous :
+  let S0 := cgG AH 0%Qc in let p := cgG_setup AH 2 yH None in
+  obs_cgG (run S0 (1 + 1) (run S0 1 p)) = obs_cgG (run S0 (1 + 1) p) /\ cg_iiter GF (run S0 2 p) = 2 /\
+  safe S0 2 [Step; Run 2] p /\
+  gqv (cg_x GF (exec S0 [Step; Run 2] p)) = gqv (cg_x GF (run S0 2 p)) /\
+  gqv (mv GF AH (cg_x GF (run S0 2 p))) = gqv yH.
+Proof. exact cgG_split_example. Qed.
+(* and on a complex 3x2 system (CGLS reaches the normal equations exactly) *)
+Example C11_cglsG_nonvacuous :
+  let S0 := cglsG 2 AR 0%Qc in let p := cglsG_setup 2 AR yR None 0%Qc in
+  obs_clG (run S0 (1 + 1) (run S0 1 p)) = obs_clG (run S0 (1 + 1) p) /\ cl_iiter GF (run S0 2 p) = 2 /\
+  safe S0 2 [Step; Run 2] p /\
+  gqv (cl_x GF (exec S0 [Step; Run 2] p)) = gqv (cl_x GF (run S0 2 p)) /\
+  gqv (mvH GF 2 AR (vsub GF yR (mv GF AR (cl_x GF (run S0 2 p))))) = [(0%Q, 0%Q); (0%Q, 0%Q)].
+Proof. exact cglsG_split_example. Qed.
+
+(* inputs intact: the ownership theorems above (C11_cg_no_caller_write,
+   C11_cgls_no_caller_write) quantify over statement sequences and buffers,
+   not over the scalar type, so they hold verbatim for complex128 arrays;
+   restated for the x0-given complex driving used by the correspondence *)
+Theorem C11_cgG_no_caller_write : forall view k (e : Heap.env) n0 l,
+  In l (Heap.hwritten (Heap.exec ((Heap.cg_setup true view ++ Heap.cg_step view) ++ concat (repeat (Heap.cg_step view) k)) (Heap.caller_heap e n0))) -> n0 <= l.
+Proof. exact (Heap.cg_no_caller_write true). Qed.
+Print Assumptions C11_cgG_no_caller_write.
+Theorem C11_cglsG_no_caller_write : forall view k (e : Heap.env) n0 l,
+  In l (Heap.hwritten (Heap.exec ((Heap.cgls_setup true view ++ Heap.cgls_step view) ++ concat (repeat (Heap.cgls_step view) k)) (Heap.caller_heap e n0))) -> n0 <= l.
+Proof. exact (Heap.cgls_no_caller_write true). Qed.
+Print Assumptions C11_cglsG_no_caller_write.
